@@ -133,20 +133,20 @@ func (s *SampleBuilder) purgeConsumedBuffers() {
 // purgeConsumedLocation clears all buffers that have already been consumed
 // during a sample building method.
 func (s *SampleBuilder) purgeConsumedLocation(consume sampleSequenceLocation, forceConsume bool) {
-	if !s.filled.hasData() {
-		return
-	}
+	for s.filled.hasData() {
+		switch consume.compare(s.filled.head) {
+		case slCompareInside:
+			if !forceConsume {
+				return
+			}
 
-	switch consume.compare(s.filled.head) {
-	case slCompareInside:
-		if !forceConsume {
-			break
+			fallthrough
+		case slCompareBefore:
+			s.releasePacket(s.filled.head)
+			s.filled.head++
+		default:
+			return
 		}
-
-		fallthrough
-	case slCompareBefore:
-		s.releasePacket(s.filled.head)
-		s.filled.head++
 	}
 }
 
